@@ -268,14 +268,81 @@ def normalizeIVRec (f : Func) : Nat → List Nat → IVState → IVState
           -- basic induction variables: the header phi is replaced by {start, +, step}
           let basics := l.inductions.filter (fun e => e.2.type == .basic)
           let virtualized := st.virtualized ++ basics.map (·.1)
-          let subs := st.subs ++ basics.map (fun e => (e.1, SCEV.addRec e.2.start e.2.step l.header))
+          let subs := st.subs ++ basics.map (fun e => (e.1, SCEV.addRec e.2.start e.2.step l.header
+            (match f.instr? e.1 with | some phi => phi.typ | none => "")))
           let l := sweepBinOps f virtualized l
           { loops := { st.loops with all := st.loops.all.setIfInBounds li l },
             virtualized := virtualized, subs := subs }) st
 
+/-! ### boundSubstitutionSize -/
+
+structure SizeState where
+  /-- memo: substituted value ↦ size of the text it expands to -/
+  sizes       : List (Nat × Nat)
+  subs        : List (Nat × SCEV)
+  virtualized : List Nat
+  deriving Inhabited
+
+/-- `scevSize` / `valueSize` of boundSubstitutionSize in one function (an `SCEVUnknown` leaf whose
+    value is substituted counts as its own expansion).  `visiting` is the cycle guard; a value whose
+    expansion exceeds `MaxSCEVNodes` loses its substitution and counts as 1 from then on. -/
+def subSize : Nat → List Nat → SCEV → SizeState → Nat × SizeState
+  | 0, _, _, st => (1, st)
+  | fuel + 1, visiting, s, st =>
+    match s with
+    | .addRec a b _ _ =>
+      let (x, st) := subSize fuel visiting a st
+      let (y, st) := subSize fuel visiting b st
+      (1 + (x + y), st)
+    | .generic _ a b =>
+      let (x, st) := subSize fuel visiting a st
+      let (y, st) := subSize fuel visiting b st
+      (1 + (x + y), st)
+    | .comm _ a b =>
+      let (x, st) := subSize fuel visiting a st
+      let (y, st) := subSize fuel visiting b st
+      (1 + (x + y), st)
+    | .max a b =>
+      let (x, st) := subSize fuel visiting a st
+      let (y, st) := subSize fuel visiting b st
+      (1 + (x + y), st)
+    | .unknown (some (.instr id)) _ =>
+      match st.subs.find? (fun e => e.1 == id) with
+      | none => (1, st)
+      | some e =>
+        match st.sizes.find? (fun m => m.1 == id) with
+        | some m => (m.2, st)
+        | none =>
+          if visiting.contains id then (1, st) else
+          let (n, st) := subSize fuel (id :: visiting) e.2 st
+          if n > MaxSCEVNodes then
+            (1, { sizes := (id, 1) :: st.sizes, subs := st.subs.filter (fun e => e.1 != id),
+                  virtualized := st.virtualized.filter (· != id) })
+          else (n, { st with sizes := (id, n) :: st.sizes })
+    | _ => (1, st)
+
+/-- the walk of boundSubstitutionSize: loops in forest order, header phis in block order -/
+def boundWalk (f : Func) (info : LoopInfo) (fuelSize : Nat) : Nat → List Nat → SizeState → SizeState
+  | 0, _, st => st
+  | fuel + 1, loops, st =>
+    loops.foldl (fun (st : SizeState) li =>
+      match info.all[li]? with
+      | none => st
+      | some l =>
+        let st := ((f.blockInstrs l.header).filter (·.kind == .Phi)).foldl (fun (st : SizeState) phi =>
+          (subSize fuelSize [] (.unknown (some (.instr phi.id)) false) st).2) st
+        boundWalk f info fuelSize fuel l.children st) st
+
+/-- `boundSubstitutionSize()` (fix "bound the text a substituted induction variable expands to") -/
+def boundSubstitutionSize (f : Func) (ivs : IVState) : IVState :=
+  let st0 : SizeState := { sizes := [], subs := ivs.subs, virtualized := ivs.virtualized }
+  let st := boundWalk f ivs.loops (300 * (ivs.subs.length + 2)) MaxLoopAnalysisDepth ivs.loops.roots st0
+  { ivs with subs := st.subs, virtualized := st.virtualized }
+
 /-- `NormalizeInductionVariables()` -/
 def normalizeInductionVariables (f : Func) (info : LoopInfo) : IVState :=
-  normalizeIVRec f MaxLoopAnalysisDepth info.roots { loops := info, virtualized := [], subs := [] }
+  boundSubstitutionSize f
+    (normalizeIVRec f MaxLoopAnalysisDepth info.roots { loops := info, virtualized := [], subs := [] })
 
 /-! ### deterministicTraversal -/
 
